@@ -8,6 +8,10 @@ Every input line is one body as it went over the wire:
    "body": hex of the concatenated DATA bytes,
    "encoding": null | "gzip" | "deflate" | "zstd"    (the announced grpc-encoding),
    "messages": [hex, ...]                              (the serialized messages expected, in order),
+   "proto": [{"name": hex, "n": "dec", "blob": hex, "r": [..], "z": int}, ...]
+                                                       (instead of "messages": the messages are protobuf
+                                                        PMsg values; the payloads are decoded with the
+                                                        wire-format parser below and compared FIELD by FIELD),
    "expect_flag": null | 0 | 1                         (optional: the flag every message must carry)}
 
 The body must be a concatenation of length-prefixed messages (PROTOCOL-HTTP2.md):
@@ -117,19 +121,113 @@ def parse_body(body, encoding):
     return out
 
 
-def judge(rec):
+# ---- protobuf wire format (encoding.md), written from the specification ----------------------
+def _varint(b, i):
+    shift, v = 0, 0
+    while True:
+        if i >= len(b):
+            raise ValueError("protobuf: truncated varint")
+        c = b[i]
+        i += 1
+        v |= (c & 0x7F) << shift
+        shift += 7
+        if not c & 0x80:
+            break
+        if shift > 63:
+            raise ValueError("protobuf: varint longer than ten bytes")
+    return v & 0xFFFFFFFFFFFFFFFF, i
+
+
+def proto_fields(b):
+    """-> list of (field number, wire type, value); value: int (types 0, 1, 5) or bytes (type 2)"""
+    out, i = [], 0
+    while i < len(b):
+        key, i = _varint(b, i)
+        field, wt = key >> 3, key & 7
+        if field == 0:
+            raise ValueError("protobuf: field number 0")
+        if wt == 0:
+            v, i = _varint(b, i)
+        elif wt == 1:
+            if len(b) - i < 8:
+                raise ValueError("protobuf: truncated fixed64")
+            v, i = struct.unpack("<Q", b[i:i + 8])[0], i + 8
+        elif wt == 2:
+            n, i = _varint(b, i)
+            if len(b) - i < n:
+                raise ValueError("protobuf: length-delimited field overruns the message")
+            v, i = bytes(b[i:i + n]), i + n
+        elif wt == 5:
+            if len(b) - i < 4:
+                raise ValueError("protobuf: truncated fixed32")
+            v, i = struct.unpack("<I", b[i:i + 4])[0], i + 4
+        else:
+            raise ValueError("protobuf: wire type %d" % wt)
+        out.append((field, wt, v))
+    return out
+
+
+def decode_pmsg(b):
+    """message PMsg { string name = 1; uint64 n = 2; bytes blob = 3; repeated uint32 r = 4; sint32 z = 5; }
+    proto3 semantics: absent singular field = default, last one wins, repeated scalars packed or not"""
+    m = {"name": b"", "n": 0, "blob": b"", "r": [], "z": 0}
+    for field, wt, v in proto_fields(b):
+        if field == 1 and wt == 2:
+            v.decode("utf-8")  # a string field must be UTF-8
+            m["name"] = v
+        elif field == 2 and wt == 0:
+            m["n"] = v
+        elif field == 3 and wt == 2:
+            m["blob"] = v
+        elif field == 4 and wt == 2:
+            j = 0
+            while j < len(v):
+                x, j = _varint(v, j)
+                m["r"].append(x & 0xFFFFFFFF)
+        elif field == 4 and wt == 0:
+            m["r"].append(v & 0xFFFFFFFF)
+        elif field == 5 and wt == 0:
+            u = v & 0xFFFFFFFF
+            m["z"] = (u >> 1) ^ -(u & 1)
+        else:
+            raise ValueError("protobuf: field %d with wire type %d is not part of PMsg" % (field, wt))
+    return m
+
+
+def judge(rec, stats=None):
     body = bytes.fromhex(rec["body"])
-    want = [bytes.fromhex(m) for m in rec["messages"]]
     try:
         got = parse_body(body, rec.get("encoding"))
     except ValueError as e:
         return str(e)
+    if stats is not None:
+        stats["inflated"] = sum(1 for flag, _ in got if flag == 1)
+    ef = rec.get("expect_flag")
+    if "proto" in rec:
+        want = rec["proto"]
+        if len(got) != len(want):
+            return "body carries %d messages, %d expected" % (len(got), len(want))
+        for k, ((flag, msg), w) in enumerate(zip(got, want)):
+            try:
+                m = decode_pmsg(msg)
+            except (ValueError, UnicodeDecodeError) as e:
+                return "message %d is not a protobuf PMsg: %s" % (k, e)
+            exp = {"name": bytes.fromhex(w["name"]), "n": int(w["n"]), "blob": bytes.fromhex(w["blob"]),
+                   "r": [int(x) for x in w["r"]], "z": int(w["z"])}
+            if m != exp:
+                bad = [f for f in exp if m[f] != exp[f]]
+                return "message %d: protobuf field(s) %s differ from the message given to the codec" % (k, ",".join(bad))
+            if ef is not None and flag != ef:
+                return "message %d has flag %d, %d expected" % (k, flag, ef)
+        if stats is not None:
+            stats["proto_decoded"] = len(got)
+        return None
+    want = [bytes.fromhex(m) for m in rec["messages"]]
     if len(got) != len(want):
         return "body carries %d messages, %d expected" % (len(got), len(want))
     for k, ((flag, msg), w) in enumerate(zip(got, want)):
         if msg != w:
             return "message %d differs from the codec's serialization" % k
-        ef = rec.get("expect_flag")
         if ef is not None and flag != ef:
             return "message %d has flag %d, %d expected" % (k, flag, ef)
     return None
@@ -143,11 +241,12 @@ def main():
             if not line:
                 continue
             rec = json.loads(line)
+            stats = {}
             try:
-                why = judge(rec)
+                why = judge(rec, stats)
             except Exception as e:  # a judge crash is a verdict too, never silence
                 why = "oracle error: %r" % (e,)
-            o.write(json.dumps({"id": rec["id"], "ok": why is None, **({"why": why} if why else {})}) + "\n")
+            o.write(json.dumps({"id": rec["id"], "ok": why is None, **({"why": why} if why else {}), **stats}) + "\n")
 
 
 if __name__ == "__main__":
